@@ -37,7 +37,12 @@ pub enum AOpt { Add(Col, bool), Modify(Col), Rename(String, String), DropC(Strin
 pub enum Ddl {
     Create(Create), Alter(Option<TName>, Vec<AOpt>), Drop(Vec<TName>, bool, Vec<u32>), Rename(Option<TName>, Option<TName>), Truncate(Option<TName>),
     IdxCreate(Index), IdxDrop(Option<String>, Option<TName>, bool), FkCreate(Fk), FkDrop(Option<String>, Option<TName>),
+    /// Postgres only
+    TypeCreate(Option<Vec<String>>, bool, Vec<String>), TypeDrop(Vec<Vec<String>>, bool, Option<u32>), TypeAlter(Option<Vec<String>>, Option<TAOpt>),
+    ExtCreate(String, Option<String>, Option<String>, bool, bool), ExtDrop(String, bool, bool, bool),
 }
+#[derive(Clone, Debug)]
+pub enum TAOpt { Add(String, Option<(bool, String)>, bool), Rename(String), RenameValue(String, String) }
 
 // ---------------------------------------------------------------- S-expressions
 
@@ -187,27 +192,46 @@ impl AOpt {
     pub fn tag(&self) -> &'static str { match self { AOpt::Add(..) => "add", AOpt::Modify(_) => "modify", AOpt::Rename(..) => "rename", AOpt::DropC(_) => "dropc", AOpt::AddFk(_) => "addfk", AOpt::DropFk(_) => "dropfk" } }
 }
 
-pub enum Real { Create(TableCreateStatement), Alter(TableAlterStatement), Drop(TableDropStatement), Rename(TableRenameStatement), Truncate(TableTruncateStatement),
+fn type_ref(parts: &[String]) -> extension::postgres::TypeRef {
+    use extension::postgres::TypeRef;
+    let i = |s: &String| Alias::new(s).into_iden();
+    match parts.len() { 1 => TypeRef::Type(i(&parts[0])), 2 => TypeRef::SchemaType(i(&parts[0]), i(&parts[1])), _ => TypeRef::DatabaseSchemaType(i(&parts[0]), i(&parts[1]), i(&parts[2])) }
+}
+
+pub enum PgReal { TC(extension::postgres::TypeCreateStatement), TD(extension::postgres::TypeDropStatement), TA(extension::postgres::TypeAlterStatement),
+    EC(extension::postgres::ExtensionCreateStatement), ED(extension::postgres::ExtensionDropStatement) }
+impl PgReal {
+    pub fn to_string(&self) -> String { match self { PgReal::TC(s) => s.to_string(PostgresQueryBuilder), PgReal::TD(s) => s.to_string(PostgresQueryBuilder), PgReal::TA(s) => s.to_string(PostgresQueryBuilder),
+        PgReal::EC(s) => s.to_string(PostgresQueryBuilder), PgReal::ED(s) => s.to_string(PostgresQueryBuilder) } }
+    pub fn build_ref(&self) -> String { match self { PgReal::TC(s) => s.build_ref(&PostgresQueryBuilder), PgReal::TD(s) => s.build_ref(&PostgresQueryBuilder), PgReal::TA(s) => s.build_ref(&PostgresQueryBuilder),
+        PgReal::EC(s) => s.build_ref(&PostgresQueryBuilder), PgReal::ED(s) => s.build_ref(&PostgresQueryBuilder) } }
+    pub fn debug(&self) -> String { match self { PgReal::TC(s) => format!("{s:?}"), PgReal::TD(s) => format!("{s:?}"), PgReal::TA(s) => format!("{s:?}"), PgReal::EC(s) => format!("{s:?}"), PgReal::ED(s) => format!("{s:?}") } }
+}
+
+pub enum Real { Pg(PgReal), Create(TableCreateStatement), Alter(TableAlterStatement), Drop(TableDropStatement), Rename(TableRenameStatement), Truncate(TableTruncateStatement),
     IdxCreate(IndexCreateStatement), IdxDrop(IndexDropStatement), FkCreate(ForeignKeyCreateStatement), FkDrop(ForeignKeyDropStatement) }
 
-macro_rules! each_ddl { ($self:expr, $s:ident => $e:expr) => { match $self { Real::Create($s) => $e, Real::Alter($s) => $e, Real::Drop($s) => $e, Real::Rename($s) => $e, Real::Truncate($s) => $e,
+macro_rules! each_ddl { ($self:expr, $s:ident => $e:expr) => { match $self { Real::Pg(_) => unreachable!(), Real::Create($s) => $e, Real::Alter($s) => $e, Real::Drop($s) => $e, Real::Rename($s) => $e, Real::Truncate($s) => $e,
     Real::IdxCreate($s) => $e, Real::IdxDrop($s) => $e, Real::FkCreate($s) => $e, Real::FkDrop($s) => $e } } }
 
 impl Real {
     pub fn build(&self, b: B) -> String {
+        if let Real::Pg(p) = self { return p.to_string(); }
         each_ddl!(self, s => match b { B::Mysql => s.build(MysqlQueryBuilder), B::Postgres => s.build(PostgresQueryBuilder), B::Sqlite => s.build(SqliteQueryBuilder) })
     }
     pub fn to_string(&self, b: B) -> String {
+        if let Real::Pg(p) = self { return p.build_ref(); }
         each_ddl!(self, s => match b { B::Mysql => s.to_string(MysqlQueryBuilder), B::Postgres => s.to_string(PostgresQueryBuilder), B::Sqlite => s.to_string(SqliteQueryBuilder) })
     }
-    pub fn build_any(&self, b: B) -> String { let q = crate::sq::sb(b); each_ddl!(self, s => s.build_any(&*q)) }
-    pub fn debug(&self) -> String { each_ddl!(self, s => format!("{s:?}")) }
+    pub fn build_any(&self, b: B) -> String { if let Real::Pg(p) = self { return p.to_string(); } let q = crate::sq::sb(b); each_ddl!(self, s => s.build_any(&*q)) }
+    pub fn debug(&self) -> String { if let Real::Pg(p) = self { return p.debug(); } each_ddl!(self, s => format!("{s:?}")) }
 }
 
 impl Ddl {
     pub fn kind(&self) -> &'static str {
         match self { Ddl::Create(_) => "create", Ddl::Alter(..) => "alter", Ddl::Drop(..) => "drop", Ddl::Rename(..) => "rename", Ddl::Truncate(_) => "truncate", Ddl::IdxCreate(_) => "idxcreate",
-            Ddl::IdxDrop(..) => "idxdrop", Ddl::FkCreate(_) => "fkcreate", Ddl::FkDrop(..) => "fkdrop" }
+            Ddl::IdxDrop(..) => "idxdrop", Ddl::FkCreate(_) => "fkcreate", Ddl::FkDrop(..) => "fkdrop", Ddl::TypeCreate(..) => "typecreate", Ddl::TypeDrop(..) => "typedrop",
+            Ddl::TypeAlter(..) => "typealter", Ddl::ExtCreate(..) => "extcreate", Ddl::ExtDrop(..) => "extdrop" }
     }
     pub fn sexp(&self) -> String {
         match self {
@@ -221,6 +245,13 @@ impl Ddl {
             Ddl::IdxDrop(n, t, ie) => format!("(idxdrop {} {} {})", opt(n, |s| hs(s)), opt(t, TName::sexp), b01(*ie)),
             Ddl::FkCreate(f) => format!("(fkcreate {})", f.sexp()),
             Ddl::FkDrop(n, t) => format!("(fkdrop {} {})", opt(n, |s| hs(s)), opt(t, TName::sexp)),
+            Ddl::TypeCreate(n, e, vs) => format!("(typecreate {} {} ({}))", opt(n, |p| format!("({})", join(p, |x| hs(x)))), b01(*e), join(vs, |v| hs(v))),
+            Ddl::TypeDrop(ns, ie, o) => format!("(typedrop ({}) {} {})", join(ns, |p| format!("({})", join(p, |x| hs(x)))), b01(*ie), opt(o, |x| x.to_string())),
+            Ddl::TypeAlter(n, o) => format!("(typealter {} {})", opt(n, |p| format!("({})", join(p, |x| hs(x)))), opt(o, |o| match o {
+                TAOpt::Add(v, pl, ine) => format!("(add {} {} {})", hs(v), b01(*ine), opt(pl, |(after, x)| format!("({} {})", if *after { "after" } else { "before" }, hs(x)))),
+                TAOpt::Rename(n) => format!("(rename {})", hs(n)), TAOpt::RenameValue(a, b) => format!("(renamevalue {} {})", hs(a), hs(b)) })),
+            Ddl::ExtCreate(n, sc, v, c, ine) => format!("(extcreate {} {} {} {} {})", hs(n), opt(sc, |s| hs(s)), opt(v, |s| hs(s)), b01(*c), b01(*ine)),
+            Ddl::ExtDrop(n, ie, c, r) => format!("(extdrop {} {} {} {})", hs(n), b01(*ie), b01(*c), b01(*r)),
         }
     }
     pub fn real(&self) -> Real {
@@ -266,6 +297,49 @@ impl Ddl {
             Ddl::IdxDrop(n, tn, ie) => { let mut d = sea_query::Index::drop(); if let Some(n) = n { d.name(n); } if let Some(t) = tn { d.table(t.build()); } if *ie { d.if_exists(); } Real::IdxDrop(d) }
             Ddl::FkCreate(f) => Real::FkCreate(f.build()),
             Ddl::FkDrop(n, tn) => { let mut d = ForeignKey::drop(); if let Some(n) = n { d.name(n); } if let Some(t) = tn { d.table(t.build()); } Real::FkDrop(d) }
+            Ddl::TypeCreate(n, e, vs) => {
+                use extension::postgres::Type;
+                let mut t = Type::create();
+                // the name can only be set together with AS ENUM
+                if let (Some(n), true) = (n, *e) { t.as_enum(type_ref(n)); }
+                t.values(vs.iter().map(|v| Alias::new(v)));
+                Real::Pg(PgReal::TC(t))
+            }
+            Ddl::TypeDrop(ns, ie, o) => {
+                let mut t = extension::postgres::Type::drop();
+                for n in ns { t.name(type_ref(n)); }
+                if *ie { t.if_exists(); }
+                match o { Some(0) => { t.cascade(); } Some(_) => { t.restrict(); } None => {} }
+                Real::Pg(PgReal::TD(t))
+            }
+            Ddl::TypeAlter(n, o) => {
+                let mut t = extension::postgres::Type::alter();
+                if let Some(n) = n { t = t.name(type_ref(n)); }
+                let t = match o {
+                    None => t,
+                    Some(TAOpt::Add(v, pl, ine)) => { let mut x = t.add_value(Alias::new(v)); match pl { Some((false, b)) => { x = x.before(Alias::new(b)); } Some((true, a)) => { x = x.after(Alias::new(a)); } None => {} } if *ine { x = x.if_not_exists(); } x }
+                    Some(TAOpt::Rename(n)) => t.rename_to(Alias::new(n)),
+                    Some(TAOpt::RenameValue(a, b)) => t.rename_value(Alias::new(a), Alias::new(b)),
+                };
+                Real::Pg(PgReal::TA(t))
+            }
+            Ddl::ExtCreate(n, sc, v, c, ine) => {
+                let mut e = extension::postgres::Extension::create();
+                e.name(n);
+                if let Some(s) = sc { e.schema(s); }
+                if let Some(s) = v { e.version(s); }
+                if *c { e.cascade(); }
+                if *ine { e.if_not_exists(); }
+                Real::Pg(PgReal::EC(e))
+            }
+            Ddl::ExtDrop(n, ie, c, r) => {
+                let mut e = extension::postgres::Extension::drop();
+                e.name(n);
+                if *ie { e.if_exists(); }
+                if *c { e.cascade(); }
+                if *r { e.restrict(); }
+                Real::Pg(PgReal::ED(e))
+            }
         }
     }
 }
@@ -379,7 +453,22 @@ impl GenD {
             return o;
         }
     }
+    fn type_name(&mut self) -> Vec<String> { let n = match self.r().below(6) { 0 => 3, 1 => 2, _ => 1 }; (0..n).map(|_| self.name()).collect() }
+    fn enum_value(&mut self) -> String { self.r().pick(COMMENTS).to_string() }
+    pub fn pg_statement(&mut self) -> Ddl {
+        match self.r().below(6) {
+            0 | 1 => { let e = self.r().chance(5, 6); let n = self.r().below(4) as usize; Ddl::TypeCreate(if e { Some(self.type_name()) } else { None }, e, (0..n).map(|_| self.enum_value()).collect()) }
+            2 => { let n = 1 + self.r().below(3) as usize; Ddl::TypeDrop((0..n).map(|_| self.type_name()).collect(), self.r().chance(1, 2), match self.r().below(3) { 0 => Some(0), 1 => Some(1), _ => None }) }
+            3 => { let o = match self.r().below(5) { 0 => None, 1 | 2 => Some(TAOpt::Add(self.enum_value(), match self.r().below(3) { 0 => Some((false, self.enum_value())), 1 => Some((true, self.enum_value())), _ => None }, self.r().chance(1, 3))),
+                    3 => Some(TAOpt::Rename(self.name())), _ => Some(TAOpt::RenameValue(self.enum_value(), self.enum_value())) };
+                Ddl::TypeAlter(if self.r().chance(9, 10) { Some(self.type_name()) } else { None }, o) }
+            4 => Ddl::ExtCreate(self.r().pick(&["ltree", "vector", "pg_trgm", "uuid-ossp"]).to_string(), if self.r().chance(1, 3) { Some(self.r().pick(&["public", "ext"]).to_string()) } else { None },
+                if self.r().chance(1, 3) { Some(self.r().pick(&["1.0", "2"]).to_string()) } else { None }, self.r().chance(1, 3), self.r().chance(1, 2)),
+            _ => Ddl::ExtDrop(self.r().pick(&["ltree", "vector", "pg_trgm"]).to_string(), self.r().chance(1, 2), self.r().chance(1, 3), self.r().chance(1, 3)),
+        }
+    }
     pub fn statement(&mut self) -> Ddl {
+        if self.b() == B::Postgres && self.r().chance(1, 8) { return self.pg_statement(); }
         match self.r().below(16) {
             0..=5 => Ddl::Create(self.create()),
             6..=8 => { let n = if self.tame { if self.b() == B::Sqlite { 1 } else { 1 + self.r().below(3) } } else { self.r().below(4) }; Ddl::Alter(self.opt_tname(3), (0..n).map(|_| self.alter_opt()).collect()) }
